@@ -50,3 +50,37 @@ Example C04_example :
               c_ret := XVar "a" |} in
   agree 50 g [StImport "numpy" None "np"] c = true.
 Proof. vm_compute. reflexivity. Qed.
+
+(* ---- generated variable names ("self-contained": the text must compile and no generated name may capture a keyword, a builtin
+   or a hinted name such as the import alias).  Model/Names.v models the generator names() inside compile(): all words over the
+   alphabet in the order of itertools.product with growing length, skipping reserved words; alphabet, first letter and start
+   length are regenerated (Gen/GenNames.v), as is the rule that a group of variables takes its single hint or else the next name.
+   For EVERY finite list L of reserved words and every number of requested names: ---- *)
+From EinxV Require Import Gen.GenNames Model.Names Proofs.NamesProofs.
+Close Scope string_scope.
+
+Theorem C04_generated_names_are_pairwise_different : forall L count, NoDup (gen_take L count).
+Proof. exact gen_names_are_distinct. Qed.
+Print Assumptions C04_generated_names_are_pairwise_different.
+
+Theorem C04_generated_names_are_never_reserved : forall L count x, In x (gen_take L count) -> ~ In x L.
+Proof. exact gen_names_are_not_reserved. Qed.
+Print Assumptions C04_generated_names_are_never_reserved.
+
+(* the generator always has a next name: looking at count + |L| words is enough (the while-loop of names() ends for every request) *)
+Theorem C04_the_name_stream_never_runs_dry : forall L count, List.length (gen_take L count) = count.
+Proof. exact gen_names_never_run_dry. Qed.
+Print Assumptions C04_the_name_stream_never_runs_dry.
+
+(* different words are different identifiers: rendering is injective on the words the generator hands out *)
+Theorem C04_different_words_are_different_identifiers : forall L count x y,
+  In x (gen_take L count) -> In y (gen_take L count) -> render x = render y -> x = y.
+Proof.
+  intros L count x y Hx Hy. apply render_injective; eapply gen_names_are_words_over_the_alphabet; eassumption.
+Qed.
+Print Assumptions C04_different_words_are_different_identifiers.
+
+Example C04_names_example :
+  map render (gen_take [[18; 0]; [1]] 4) = ["a"; "c"; "d"; "e"]%string            (* "as" and "b" reserved *)
+  /\ nth 26 (map render (gen_take [[18; 0]] 30)) ""%string = "aa"%string /\ nth 44 (map render (gen_take [[18; 0]] 50)) ""%string = "at"%string.
+Proof. vm_compute. repeat split; reflexivity. Qed.
